@@ -15,6 +15,7 @@ def dispatch (cmd : String) (args : List String) : String :=
   match cmd with
   | "DEC" => dec args
   | "DECS" => decs args
+  | "DECPAR" => decpar args
   | "ENC" => ((encDp args).orElse fun _ => encCtl args).getD "BADARG"
   | "RT" => rt args
   | "BKD" => bkd args
